@@ -84,9 +84,10 @@ def seeded():
             continue
         tot += 1
         cb = m.get("caught_by") or []
-        if cb:
+        manual = m.get("caught_by_after_strengthening") or []
+        if cb or manual:
             caught += 1
-        det = ", ".join("%s (%d VIOLATION line%s)" % (c, m["checks"][c]["violations"], "" if m["checks"][c]["violations"] == 1 else "s") for c in cb) or "**not caught**"
+        det = ", ".join("%s (%d VIOLATION line%s)" % (c, m["checks"][c]["violations"], "" if m["checks"][c]["violations"] == 1 else "s") for c in cb) or (", ".join(manual) + " (see history)" if manual else "**not caught**")
         rows.append("| %s | %s | %s | %s |" % (name, esc(title)[:160], det, esc(m.get("history") or ("caught at first run" if cb else "not caught yet"))[:400]))
     head = "%d confirmed seeded changes, %d caught by the current checks.\n\n| seeded change | what it does (tester's title) | caught by | history |\n|---|---|---|---|\n" % (tot, caught)
     return head + "\n".join(rows)
